@@ -31,7 +31,8 @@
 #define MAXE 512
 #define MAXA 64
 #define MAX_WAITS 4000
-#define RFD(d) (100 + (d))
+#define RFD0(d) (100 + (d))
+#define RFD(d) (g_fdof[d])
 
 enum { K_PIPE, K_SOCK, K_TCP };
 enum { A_W, A_H, A_P, A_ADD, A_SHUT, A_U, A_X, A_XX };
@@ -41,7 +42,13 @@ typedef struct { int op, d, n; } act_t;
 typedef struct { int trig, a, b; int nact; act_t acts[MAXA]; } ent_t;
 
 /* script */
-static int g_hints = 8, g_pool = 0, g_closefd = 0;    /* closefd: cb_close closes the descriptor */
+static int g_hints = 8, g_pool = 0, g_closefd = 0;    /* closefd: cb_close closes the descriptor;
+                                                       * 2 (flag R): and a context added in that callback takes
+                                                       * over the closed descriptor's number (reconnect-on-close) */
+static int g_fdof[16];                /* current fd number of descriptor d's read end */
+static int g_reuse_fd = -1;           /* fd number released by the close callback that is running */
+static int g_defer_add;               /* 1 while cb_close (mode R) collects its add actions */
+static int g_deferred[16], g_ndeferred;
 static int g_nd, g_kind[MAXD], g_rmode[MAXD];      /* rmode: 0 = all, k > 0 = one read of ≤ k */
 static act_t g_pre[MAXE]; static int g_npre;
 static ent_t *g_ent; static int g_nent;
@@ -108,6 +115,7 @@ static int mk_desc(int d)
 		int one = 1;
 		setsockopt(w, IPPROTO_TCP, TCP_NODELAY, &one, sizeof one);
 	}
+	g_fdof[d] = RFD0(d);
 	if (dup2(r, RFD(d)) < 0) return -1;
 	close(r);
 	g_peer[d] = w;
@@ -172,7 +180,21 @@ static void do_act(const act_t *a)
 		break; }
 	case A_ADD:
 		if (g_tried[d]) break;
+		if (g_defer_add) {             /* mode R: performed after the descriptor has been closed */
+			if (g_ndeferred < 16) g_deferred[g_ndeferred++] = d;
+			break;
+		}
 		g_tried[d] = 1;
+		if (g_reuse_fd >= 0 && !g_rclosed[d]) {
+			/* the lowest free number is what open()/accept() would hand out next: the new
+			 * context takes over the number the close callback has just released */
+			if (dup2(g_fdof[d], g_reuse_fd) >= 0) {
+				close(g_fdof[d]);
+				g_fdof[d] = g_reuse_fd;
+				muggle_ev_ctx_init(&g_ctx[d], g_fdof[d], (void *)(intptr_t)d);
+			}
+			g_reuse_fd = -1;
+		}
 		g_reg[d] = muggle_evloop_add_ctx(g_ev, &g_ctx[d]) == 0;
 		tr(g_reg[d] ? "A+%d" : "A-%d", d);
 		break;
@@ -228,10 +250,21 @@ static void cb_close(muggle_event_loop_t *ev, muggle_event_context_t *ctx)
 	g_closed_cb[d]++;
 	g_reg[d] = 0;
 	tr("C%d", d);
+	if (g_closefd == 2) { g_defer_add = 1; g_ndeferred = 0; }
 	fire(T_CL, d, 0, 0);
+	g_defer_add = 0;
 	if (g_closefd) {                   /* what the library's own socket layer does in its close callback */
+		int old = g_fdof[d];
 		muggle_ev_ctx_close(ctx);
 		g_rclosed[d] = 1;
+		if (g_closefd == 2) {
+			for (int i = 0; i < g_ndeferred; i++) {
+				act_t a = { A_ADD, g_deferred[i], 0 };
+				g_reuse_fd = i == 0 ? old : -1;
+				do_act(&a);
+			}
+			g_reuse_fd = -1; g_ndeferred = 0;
+		}
 	}
 }
 static void cb_wake(muggle_event_loop_t *ev)
@@ -418,7 +451,10 @@ static void vh_op(int argc, char **argv)
 	if (!strcmp(op, "cfg") && argc >= 3 && is_num(argv[1])) {
 		g_hints = (int)vh_ll(argv[1]); g_pool = (int)vh_ll(argv[2]) != 0;
 		g_closefd = 0;
-		for (int i = 3; i < argc; i++) if (!strcmp(argv[i], "C")) g_closefd = 1;
+		for (int i = 3; i < argc; i++) {
+			if (!strcmp(argv[i], "C")) g_closefd = 1;
+			if (!strcmp(argv[i], "R")) g_closefd = 2;
+		}
 		printf("ok\n"); return;
 	}
 	if (!strcmp(op, "fd") && argc == 2 && g_nd < MAXD) {
